@@ -163,7 +163,8 @@ def sizeExp (o : Obj) : Exp :=
 
 /-! ### bit-vector style queries -/
 
-def bitSpec (s : Array Bool) (meth : String) (a : List Nat) : Exp :=
+def bitSpec (s : Array Bool) (meth : String) (a : List Nat) (lazySel : Bool := false) : Exp :=
+  if lazySel && (meth == "select1" || meth == "select0") then .eq "" else      -- filled in from the position cache
   match meth, a with
   | "access", [i] => .eq (showOB (SpecX.access s i))
   | "get_bit", [i] => .eq (showOB (SpecX.access s i))
@@ -583,24 +584,24 @@ def qCommonSer (o : Obj) (meth : String) (a : List String) : Option Out :=
     l?.bind fun l => (withCodec o fun _ _ cd x => wfailLine cd x l).map fun s => ⟨s, expWfail⟩
   | _, _ => none
 
-def query (c : Cfg) (o : Obj) (meth : String) (a : List String) : Out :=
+def query (c : Cfg) (o : Obj) (meth : String) (a : List String) (lazySel : Bool := false) : Out :=
   match qCommonSer o meth a with
   | some r => r
   | none =>
   let nums := a.mapM num?
   match o with
   | .bv m s => (match nums.bind (qBV c m meth) with
-      | some r => ⟨r, bitSpec s meth (nums.getD [])⟩
+      | some r => ⟨r, bitSpec s meth (nums.getD []) lazySel⟩
       | none => bad s!"bv query {meth}")
   | .r9 m s => (match nums.bind (qR9 c m meth) with
-      | some r => ⟨r, bitSpec s meth (nums.getD [])⟩
+      | some r => ⟨r, bitSpec s meth (nums.getD []) lazySel⟩
       | none => bad s!"r9 query {meth}")
   | .da m s => (match nums.bind (qDA c m meth) with
-      | some r => ⟨r, if meth == "has_rank" || meth == "has_select0" then .any else bitSpec s meth (nums.getD [])⟩
+      | some r => ⟨r, if meth == "has_rank" || meth == "has_select0" then .any else bitSpec s meth (nums.getD []) lazySel⟩
       | none => bad s!"da query {meth}")
   | .sa m s => (match nums.bind (qSA c m meth) with
       | some r => ⟨r, if meth == "select0" || meth == "has_rank" || (!m.hasRank && (meth == "rank1" || meth == "rank0" || meth == "predecessor1" || meth == "successor1")) then .any
-                       else bitSpec s meth (nums.getD [])⟩
+                       else bitSpec s meth (nums.getD []) lazySel⟩
       | none => bad s!"sa query {meth}")
   | .efb _ u cap _ => (match meth with
       | "universe" => ⟨toString u, .eq (toString u)⟩
@@ -919,7 +920,7 @@ def prim (a : List String) : Option Out :=
 
 /-! ### one request -/
 
-def step (c : Cfg) (tbl : Tbl) (toks : List String) : Tbl × Out :=
+def step1 (c : Cfg) (tbl : Tbl) (toks : List String) : Tbl × Out :=
   match toks with
   | "case" :: rest => (({} : Tbl), ⟨"case " ++ " ".intercalate rest, .any⟩)
   | "new" :: id :: kind :: ctor :: a =>
@@ -962,5 +963,37 @@ def step (c : Cfg) (tbl : Tbl) (toks : List String) : Tbl × Out :=
   | "prim" :: a => (tbl, (prim a).getD (bad "prim"))
   | ["drop", id] => (match num? id with | some i => (tbl.erase i, ⟨"ok", .any⟩) | none => (tbl, bad "id"))
   | _ => (tbl, bad "command")
+
+/-- per-object cache of `SpecX.positions true/false` (what `SpecX.select b a k = (positions b a)[k]?` indexes):
+    computed once per object instead of once per `select` request; dropped whenever the object may change -/
+abbrev PosCache := Std.HashMap Nat (Array Nat × Array Nat)
+
+def bitsOf? : Obj → Option (Array Bool)
+  | .bv _ s => some s | .r9 _ s => some s | .da _ s => some s | .sa _ s => some s | _ => none
+
+def step (c : Cfg) (st : Tbl × PosCache) (toks : List String) : (Tbl × PosCache) × Out :=
+  let (tbl, cache) := st
+  match toks with
+  | ["q", id, meth, k] =>
+    if meth == "select1" || meth == "select0" then
+      match num? id, num? k with
+      | some i, some kk =>
+        (match tbl.get? i, (tbl.get? i).bind bitsOf? with
+        | some ob, some s =>
+          let (pc, cache') := match cache.get? i with
+            | some pc => (pc, cache)
+            | none => let pc := (SpecX.positions true s, SpecX.positions false s); (pc, cache.insert i pc)
+          let out := query c ob meth [k] true
+          -- same value as `SpecX.select b s kk = (SpecX.positions b s)[kk]?`, read from the cached positions
+          let e : Exp := match out.e with
+            | .any => .any
+            | _ => .eq (showON ((if meth == "select1" then pc.1 else pc.2)[kk]?))
+          ((tbl, cache'), { out with e := e })
+        | _, _ => let (tbl', out) := step1 c tbl toks; ((tbl', cache), out))
+      | _, _ => let (tbl', out) := step1 c tbl toks; ((tbl', cache), out)
+    else let (tbl', out) := step1 c tbl toks; ((tbl', cache), out)
+  | "q" :: _ => let (tbl', out) := step1 c tbl toks; ((tbl', cache), out)
+  | "it" :: _ => let (tbl', out) := step1 c tbl toks; ((tbl', cache), out)
+  | _ => let (tbl', out) := step1 c tbl toks; ((tbl', {}), out)      -- anything that may create or change objects
 
 end Sucds.Driver
